@@ -169,9 +169,11 @@ class Live(JupyterMixin, RenderHook):
                 # a partial line still waiting in the redirected streams is printed while the display is live
                 # (above it), not by the stream's destructor after the final frame
                 self._flush_redirected_io()
-                # allow it to fully render on the last even if overflow
+                # allow it to fully render on the last even if overflow (a transient display is erased
+                # next: what is drawn beyond the screen could not be erased, so it keeps its overflow method)
                 vertical_overflow = self.vertical_overflow
-                self.vertical_overflow = "visible"
+                if not self.transient:
+                    self.vertical_overflow = "visible"
                 try:
                     if not self.console.is_jupyter:
                         self.refresh()
